@@ -4,7 +4,7 @@ from vf.ch import Ob
 
 ASSUMPTIONS = PRE_ASSUME + ["comment text is re-spaced around , ( ) = by the pre-processor: compared blank-free (the property does not promise verbatim comment text)"]
 OUTSIDE = ["quotes inside comment text", "comment markers inside literals (C07)", "more than one comment per script in one obligation"]
-KINDS = ["line_dash", "line_hash", "line_block", "trail_dash", "trail_block", "multi_block"]
+KINDS = ["line_dash", "line_hash", "line_block", "trail_dash", "trail_block", "multi_block", "multi_block_banner", "trail_dash_glued"]
 
 
 def obligations(tier):
